@@ -14,6 +14,8 @@ import ast
 import atexit
 import itertools
 import json
+import keyword
+import re
 import math
 import multiprocessing as mp
 import os
@@ -1258,6 +1260,16 @@ def judge_case(ctx, case, R, M):
                     dd["species"] = [[k, None] for k, _ in dd["species"]]
             if json.dumps(rd, sort_keys=True) != json.dumps(md, sort_keys=True):
                 ctx.add_drift(small, rd, md, "written document differs from exportModel")
+    # 2a. SBML validity of the reactions: a species whose id appears in a kinetic law is listed as reactant, product or
+    #     modifier (L3v2 validation rule 21121) — the modifiers written are the law's variables that are not in the stoichiometry
+    if all(re.fullmatch(r"[A-Za-z][A-Za-z0-9_]*", n) for n in kinds["all"]):
+        var_names = set(kinds["vars"])
+        want = sorted([r["name"], sorted({a for a in r["fn"]["args"] if a in var_names} - {sp for sp, _ in r["stoich"]})]
+                      for r in desc["rxns"])
+        got = sorted([rid, sorted(set(ms))] for rid, ms in R["export"]["ok"].get("modifiers") or [])
+        mgot = None if M is None or m_exp != "ok" else sorted([rid, sorted(set(ms))] for rid, ms in M["export"]["ok"]["modifiers"])
+        ctx.judge(dict(small, what="modifiers"), got, want, mgot,
+                  what="a species used by a kinetic law is neither reactant, product nor modifier of the reaction (invalid SBML)")
     ident = {n: n for n in kinds["all"]}
     if case["kind"].startswith("unsupported:") and ("orig" not in R or "err" in R["orig"]):
         # a representable-but-usually-refused construct was exported and Python itself cannot evaluate it here
@@ -1305,9 +1317,6 @@ def judge_case(ctx, case, R, M):
 
         def names(v):
             return v if v is None or "err" in v else {"names": v["names"]}
-
-        import keyword
-        import re
 
         def plain(n):
             return bool(re.fullmatch(r"[A-Za-z][A-Za-z0-9_]*", n)) and "__" not in n and not keyword.iskeyword(n)
